@@ -351,19 +351,65 @@ def iterLoop (c : Codec V) (d : Bits) : Nat → Nat → List (Except Err V)
 def iter (c : Codec V) (d : Bits) : Except Err (List V) :=
   (iterLoop c d (len c d) 0).mapM id
 
+/-- `zip(range(start, stop, step), value)` when the assigned value is the Array itself (array_.py:236-237): the
+    generator of `__iter__` reads item `k` from the *current* data just before the `k`-th overwrite. -/
+def overwriteSelfLoop (c : Codec V) : List (Int × Nat) → Bits → Step Unit
+  | [], d => ⟨d, .ok ()⟩
+  | (s, k) :: rest, d =>
+    match readAt c d (c.w * k) with
+    | .error e => ⟨d, .error e⟩
+    | .ok v =>
+      match createElement c v with
+      | .error e => ⟨d, .error e⟩
+      | .ok b =>
+        match bOverwrite d b (s * c.w) with
+        | .error e => ⟨d, .error e⟩
+        | .ok d' => overwriteSelfLoop c rest d'
+
+/-- `a[start:stop:step] = a` (array_.py:221-247 with `value is self`).  Step 1: all elements are read and built before
+    the splice.  Extended slice: `len(value)` is `len(self)`, and the values are read lazily while the loop overwrites. -/
+def setSliceSelf (c : Codec V) (d : Bits) (start stop step : Option Int) : Step Unit :=
+  let st := step.getD 1
+  if st = 0 then ⟨d, .error .value⟩ else
+  let r := Py.sliceIndices start stop st (len c d)
+  if st = 1 then
+    match iter c d with
+    | .error e => ⟨d, .error e⟩
+    | .ok vals => setSlice c d start stop step vals
+  else
+    if len c d = Py.rangeLen r.1 r.2.1 st then
+      overwriteSelfLoop c ((Py.rangeList r.1 r.2.1 st).zip (List.range (len c d))) d
+    else ⟨d, .error .value⟩
+
+/-- Region of the known finding `setslice-self-extended`: an extended slice (step ≠ 1) that covers the whole Array of at
+    least two items, assigned from the Array itself (`a[::-1] = a`): the values are read while they are being overwritten. -/
+def setslice_self_extended (c : Codec V) (d : Bits) (start stop step : Option Int) : Bool :=
+  let st := step.getD 1
+  let r := Py.sliceIndices start stop st (len c d)
+  st != 0 && st != 1 && decide (2 ≤ len c d) && (len c d == Py.rangeLen r.1 r.2.1 st)
+
 /-- What `count` needs from Python values: `math.isnan(value)` (TypeError for str/bytes/Bits) and `==`. -/
 structure ValOps (V : Type) where
   isnan : V → Except Err Bool
   eq : V → V → Bool
 
-/-- `count(value)` (array_.py:345-361): a value `math.isnan` cannot take (str, bytes, Bits) is not NaN. -/
+/-- `count(value)` (array_.py:348-364): a value `math.isnan` cannot take (str, bytes, Bits) is not NaN; for a NaN
+    value `sum(math.isnan(i) for i in self)` — which itself raises TypeError on a str / bytes / Bits item. -/
 def count (c : Codec V) (vo : ValOps V) (d : Bits) (value : V) : Except Err Nat :=
   let isNan : Bool := match vo.isnan value with | .ok b => b | .error _ => false
   match iter c d with
   | .error e => .error e
   | .ok l =>
-    if isNan then .ok (l.countP fun i => match vo.isnan i with | .ok b => b | .error _ => false)
+    if isNan then
+      match l.mapM vo.isnan with
+      | .error e => .error e
+      | .ok bs => .ok (bs.countP id)
     else .ok (l.countP fun i => vo.eq i value)
+
+/-- Region of the known finding `count-nan-nonnumeric`: `count(float('nan'))` on an Array whose items are not numbers
+    (`math.isnan` of an item raises) — the list model says 0. -/
+def count_nan_nonnumeric (vo : ValOps V) (l : List V) : Bool :=
+  l.any fun i => match vo.isnan i with | .error _ => true | .ok _ => false
 
 /-- `equals(other_Array)` (array_.py:450-457). -/
 def equals (c : Codec V) (d : Bits) (c2 : Codec V) (d2 : Bits) : Bool :=
@@ -845,6 +891,30 @@ def stepOp (s : St) (f : List String) : Option (String × St × Bool) :=
     match optIntOfStr? a, optIntOfStr? b, optIntOfStr? st, valsOfStr? vs with
     | some a, some b, some st, some vs => mutMulti (setSlice c d a b st vs)
     | _, _, _, _ => none
+  | ["ssla", a, b, st, dt, vs, tr] =>
+    -- the right-hand side is another Array: its items (not its data) are assigned
+    match optIntOfStr? a, optIntOfStr? b, optIntOfStr? st, codecOfStr? dt, valsOfStr? vs, optBitsOfStr? tr with
+    | some a, some b, some st, some c2, some vs, some tr =>
+      match init c2 (.list vs) tr with
+      | .error _ => none
+      | .ok d2 =>
+        match tolist c2 d2 with
+        | .error _ => none
+        | .ok its => mutMulti (setSlice c d a b st its)
+    | _, _, _, _, _, _ => none
+  | ["sslself", a, b, st] =>
+    match optIntOfStr? a, optIntOfStr? b, optIntOfStr? st with
+    | some a, some b, some st => mutMulti (setSliceSelf c d a b st)
+    | _, _, _ => none
+  | ["cntv", _, mode, set] =>
+    -- count(value) for a Python value given literally; the equality (mode v) / NaN-ness (mode n) of the items at hand
+    -- with that value is supplied as a set of item values (float and str comparison are not modelled)
+    (valsOfStr? set).map fun set =>
+      let vo : ValOps Val :=
+        { isnan := fun v => if v == .bad then .ok (mode == "n") else
+                             if c.rt == .other then .error .type else .ok (mode == "n" && set.contains v),
+          eq := fun i _ => set.contains i }
+      ((match count c vo d .bad with | .ok n => "n:" ++ toString n | .error _ => "e"), s, false)
   | ["del", i] => i.toInt?.bind fun i => mut1 (delItem c d i)
   | ["dsl", a, b, st] =>
     match optIntOfStr? a, optIntOfStr? b, optIntOfStr? st with
